@@ -28,3 +28,27 @@ check("C20", "exploration",
       "Trusted: the dispatch model (sorted-by-priority, first accept wins, trigger-less after triggered). Equal priorities are excluded because their order is undocumented.",
       "runtime monitoring: invocation-log checker against a priority dispatch model over enumerated registration scenarios",
       "DESIGN.md section 4 / C20")
+check("C03", "exploration",
+      "Output monitoring: every safe-mode output of the run is parsed by a strict tokenizer written from the statement (fixed vocabulary, quoted values, no raw '<', well-formed references, only the placeholder comment, proper nesting); "
+      "XHTML outputs are additionally parsed by encoding/xml in strict mode. Adversarial soup, exhaustive short adversarial strings and corpus mutants across all 144 safe configurations.",
+      "Trusted: the tokenizer and vocabulary tables (oracle/htmltok.go), encoding/xml with the HTML entity set. Inputs not generated are not covered.",
+      "runtime monitoring: strict output tokenizer + XML parser as oracles over adversarial and exhaustive-short workloads in every safe configuration",
+      "DESIGN.md section 4 / C03")
+check("C04", "exploration",
+      "Output monitoring: every href/src emitted in safe mode is decoded and normalised the way a browser's URL parser finds the scheme, then tested against the dangerous schemes; "
+      "the workload spells the four schemes with every escaping device in every URL-bearing construct across the safe configurations.",
+      "Trusted: the tokenizer, html.UnescapeString, the 20-line browser-like normaliser (leading C0/space stripped, TAB/LF/CR removed, percent escapes not decoded).",
+      "runtime monitoring: browser-like URL normaliser as oracle over a URL-spelling generator x URL-bearing constructs x safe configurations",
+      "DESIGN.md section 4 / C04")
+check("C05", "exploration",
+      "Invariant monitoring: every tree returned by Parse is walked through accessors and every structural, placement and position invariant of the statement is asserted on every node; "
+      "exhaustive short strings, soup and corpus mutants across the 36 parser-side configurations.",
+      "Trusted: the walker (oracle/astwalk.go). Only trees produced by the run's inputs are covered.",
+      "runtime monitoring: AST invariant walker (assertions on the returned tree) over exhaustive-short and randomized inputs x parser-side configurations",
+      "DESIGN.md section 4 / C05")
+check("C14", "fault_enumeration",
+      "Fault injection at the only fault surface (the caller's io.Writer): for each document every byte offset at which the writer can start failing is enumerated (completely for outputs <= 2048 bytes, boundary-biased beyond), "
+      "for seven writer variants; oracle: no panic, non-nil error wrapping the injected one, accepted bytes are a prefix of the fault-free output; plus a node renderer failing at the n-th node.",
+      "Trusted: the failing writers of the harness. Documents are sampled; offsets are complete only for outputs up to 2048 bytes.",
+      "runtime monitoring with fault injection: enumeration of writer fault offsets x writer variants, prefix/error oracle",
+      "DESIGN.md section 4 / C14")
